@@ -10,6 +10,7 @@ from typing import Any, Dict, List
 from engine.absint import AbsObj, ClassRef, ModuleEnv, Opaque
 from engine.index import AnalysisError
 from engine.pyinterp import Function, Interp, InterpRaised, Stub, StubCall, Unsupported
+from rules.common import bind_like
 from engine.rowabs import ABSENT, Idx, Mask, NPRow, PDRow, RowFrame, Ser
 
 COVERAGES = [0.0, 0.25, 0.5, 0.5000001, 0.75, 1.0]
@@ -87,11 +88,16 @@ class _PD(PDRow):
 
 def outcomes(chk, fi) -> List[Dict[str, Any]]:
     out = []
+    af = chk.repo.func("opendsm.eemeter.common.data_processor_utilities", "as_freq")
     for c in COVERAGES:
         seen: Dict[str, Any] = {}
+        holder: Dict[str, Any] = {}
 
-        def as_freq(data, freq, *a, **k):
-            seen["as_freq"] = (freq, tuple(a), tuple(sorted(k.items())))
+        def as_freq(*a, **k):
+            vals = bind_like(af, a, k)
+            seen["calls"] = seen.get("calls", 0) + 1
+            seen["as_freq"] = {"freq": vals.get("freq"), "series_type": vals.get("series_type", "cumulative"), "include_coverage": vals.get("include_coverage", False),
+                               "atomic_freq": vals.get("atomic_freq", "1 Min"), "data_is_temperature_column": vals.get("data_series") is holder.get("t"), "calls": seen["calls"]}
             return RowFrame({"value": T_MEAN, "coverage": c})
         warned: List[Any] = []
         me = AbsObj({"_DailyData", "_BillingData"}, warnings=warned, disqualification=[])
@@ -99,7 +105,9 @@ def outcomes(chk, fi) -> List[Dict[str, Any]]:
         env = ModuleEnv(chk.repo, fi.module, it, {"as_freq": StubCall(as_freq), "np": NPRow(), "numpy": NPRow(), "pd": _PD(), "pandas": _PD(),
                                                   "EEMeterWarning": StubCall(lambda **k: k.get("qualified_name")), "MonthEnd": ClassRef("MonthEnd"), "MonthBegin": ClassRef("MonthBegin")})
         try:
-            res = Function(fi.node, env, it)(me, _In(), Idx(True))
+            inp = _In()
+            holder["t"] = inp.t
+            res = Function(fi.node, env, it)(me, inp, Idx(True))
         except InterpRaised as e:
             out.append({"coverage": c, "raises": e.exc_name})
             continue
